@@ -34,10 +34,13 @@ Definition slice_list (start stop : nat) (l : list A) : list A :=
    array (indexed). *)
 Inductive selector := SSlice (start stop : nat) | SPos (ps : list nat).
 
-(* Subarray._select_data: data[indices] *)
+(* Subarray._select_data: data[indices], where data is a cfdm Data object:
+   Data._parse_indices turns a one-element integer array [p] into
+   slice(p, p + 1, 1), which is clipped rather than checked. *)
 Definition select (s : selector) (data : list A) : result (list A) :=
   match s with
   | SSlice a b => Ok (slice_list a b data)
+  | SPos [p] => Ok (slice_list p (S p) data)
   | SPos ps =>
       if forallb (fun p => p <? length data)%nat ps
       then Ok (map (fun p => nth p data miss) ps)
@@ -241,6 +244,15 @@ Fixpoint gathered_decode (dims : list nat) (lst : list Z) (blocks : list (list A
 (* compressed_data[start:end] = d[:last] for every feature, in order *)
 Definition pack (counts : list nat) (rows : list (list A)) : list A :=
   concat (map (fun cr => firstn (fst cr) (snd cr)) (combine counts rows)).
+
+(* pinned code: compressed_data[start:end] = d[:last] with d a Data object;
+   Data.__setitem__ does np.asanyarray(value), which drops the mask of a Data
+   value, so a missing value inside a feature came back as the number that
+   was stored under the mask. *)
+Definition pack_old {V} (hidden : V) (counts : list nat) (rows : list (list (option V)))
+  : list (option V) :=
+  map (fun x => match x with None => Some hidden | Some v => Some v end)
+      (concat (map (fun cr => firstn (fst cr) (snd cr)) (combine counts rows))).
 
 End Cells.
 
